@@ -41,7 +41,7 @@ open Ctrmml Ctrmml.Mds
 
 /-- the residual hypotheses of `C09_full_partial` that can be decided on an export -/
 def fullPartialHyps (song : Song) (b : Built) : Bool :=
-  decide ((song.tracks.map (·.1)).Pairwise (· < ·)) && decide (0 < b.trackList.length) && b.seq.all (· < 256) &&
+  decide ((song.tracks.map (·.1)).Pairwise (· < ·)) && decide (0 < b.trackList.length) &&
   (b.trackList.map (·.2) ++ b.conv.subList).all MdsRead.fragB && (b.trackStreams ++ b.subStreams).all (·.length < 65536)
 
 end Ctrmml.MdsFile
